@@ -190,6 +190,25 @@ func copyDir(src, dst string, rename func(string) string) error {
 	return nil
 }
 
+// lockRepo serialises the copy of /repo's working tree with tool/try_mut.sh,
+// which holds the same advisory lock while a seeded change is applied to
+// /repo: a check running in the background then never copies a tree that
+// somebody is in the middle of changing. Any failure to lock is ignored.
+func lockRepo() func() {
+	if os.Getenv("VERIF_LOCK_HELD") != "" {
+		return func() {}
+	}
+	f, err := os.OpenFile("/var/tmp/verif-repo.lock", os.O_CREATE|os.O_RDWR, 0666)
+	if err != nil {
+		return func() {}
+	}
+	if err := syscall.Flock(int(f.Fd()), syscall.LOCK_EX); err != nil {
+		f.Close()
+		return func() {}
+	}
+	return func() { syscall.Flock(int(f.Fd()), syscall.LOCK_UN); f.Close() }
+}
+
 func build(race bool, both bool) (*buildOut, error) {
 	start := time.Now()
 	scratch := os.Getenv("VERIF_SCRATCH")
@@ -202,9 +221,13 @@ func build(race bool, both bool) (*buildOut, error) {
 	}
 	bo := &buildOut{Scratch: scratch}
 	src := filepath.Join(scratch, "src")
-	if err := copyTree(src); err != nil {
+	unlock := lockRepo()
+	err := copyTree(src)
+	unlock()
+	if err != nil {
 		return bo, err
 	}
+	fmt.Println("verifctl: tree copied")
 	rep, err := instr.Instrument(instr.Config{Root: src, Module: modPath, Pkgs: pkgDirs, SimrtPkg: simrtPath, GoCmd: goCmd, Env: goEnv()})
 	bo.Report = rep
 	if err != nil {
